@@ -9,6 +9,7 @@ import (
 	"fmt"
 	"strconv"
 	"strings"
+	"time"
 )
 
 // proxy-generated error replies (observable protocol constants)
@@ -30,6 +31,7 @@ func isProxyError(b []byte) bool {
 type Expected struct {
 	Known    bool     // the oracle can say what the reply must be
 	Exact    []byte   // exact bytes (when !AnyError)
+	Alt      []byte   // a second acceptable exact reply (e.g. timeout error vs. a late-but-in-time reply)
 	AnyError bool     // any RESP error reply is right
 	Why      string
 }
@@ -58,10 +60,23 @@ func (d *Driver) expectedFor(c *ClientState, i int) Expected {
 	case "local", "reject":
 		return Expected{Known: true, Exact: rq.Expect, Why: rq.Class}
 	case "single":
-		var fin *CmdRec
+		var fin, last *CmdRec
 		for _, r := range d.recsFor(rq.Tok) {
-			if r.Kind == "data" && r.Released {
-				fin = r
+			if r.Kind == "data" {
+				last = r
+				if r.Released {
+					fin = r
+				}
+			}
+		}
+		if T := time.Duration(d.P.Proxy.TimeoutMs) * time.Millisecond; T > 0 && last != nil {
+			// the proxy's deadline is (write to the backend socket + T), and the write is not earlier than the instant the
+			// client sent the request's last byte: a reply fully handed to the proxy before sentAt+T was in time for sure.
+			if !last.Released {
+				return Expected{Known: true, Exact: []byte(RTimeout), Why: "backend never answered"}
+			}
+			if last.RelAt-c.SentAt[i] >= T {
+				return Expected{Known: true, Exact: []byte(RTimeout), Alt: last.Reply, Why: "backend answered around/after the deadline: timeout error, or the reply if it still made it"}
 			}
 		}
 		if fin == nil {
@@ -72,24 +87,41 @@ func (d *Driver) expectedFor(c *ClientState, i int) Expected {
 		}
 		return Expected{Known: true, Exact: fin.Reply, Why: fmt.Sprintf("reply of %s to cmd#%d", fin.Node, fin.Idx)}
 	case "split":
-		return d.expectedSplit(rq, msgMax)
+		return d.expectedSplit(rq, msgMax, c.SentAt[i])
 	}
 	return Expected{}
 }
 
-func (d *Driver) expectedSplit(rq *ReqPlan, msgMax int) Expected {
+func (d *Driver) expectedSplit(rq *ReqPlan, msgMax int, sentAt time.Duration) Expected {
 	recs := d.recsFor(rq.Tok)
-	// final data record per key occurrence
-	type occ struct {
-		rec *CmdRec
-		pos int // index among the record's keys
-	}
 	var data []*CmdRec
+	held, late := false, false
 	for _, r := range recs {
+		if T := time.Duration(d.P.Proxy.TimeoutMs) * time.Millisecond; T > 0 && r.Kind == "data" && r.Name == rq.Cmd {
+			if !r.Released {
+				held = true
+			} else if r.RelAt-sentAt >= T {
+				late = true
+			}
+		}
 		if r.Kind == "data" && r.Released && r.Name == rq.Cmd {
 			data = append(data, r)
 		}
 	}
+	if d.P.Proxy.TimeoutMs > 0 && held {
+		return Expected{Known: true, Exact: []byte(RTimeout), Why: "a fragment stalled beyond the request timeout"}
+	}
+	if d.P.Proxy.TimeoutMs > 0 && late {
+		e := d.expectedSplitFrom(rq, data, msgMax)
+		if e.Known && !e.AnyError {
+			return Expected{Known: true, Exact: []byte(RTimeout), Alt: e.Exact, Why: "a fragment answered late"}
+		}
+		return Expected{Known: true, AnyError: true, Why: "a fragment answered late"}
+	}
+	return d.expectedSplitFrom(rq, data, msgMax)
+}
+
+func (d *Driver) expectedSplitFrom(rq *ReqPlan, data []*CmdRec, msgMax int) Expected {
 	if len(data) == 0 {
 		return Expected{Why: "no fragment answered"}
 	}
@@ -229,7 +261,7 @@ func (d *Driver) ClassifyReplies() []ReplyFinding {
 			switch {
 			case e.Known && e.AnyError && len(got) > 0 && got[0] == '-':
 				f.Kind = "match"
-			case e.Known && !e.AnyError && bytes.Equal(got, e.Exact):
+			case e.Known && !e.AnyError && (bytes.Equal(got, e.Exact) || (e.Alt != nil && bytes.Equal(got, e.Alt))):
 				f.Kind = "match"
 			default:
 				f.Kind = d.misclassify(c, i, got, exps)
